@@ -242,12 +242,17 @@ int main(int argc, char *argv[])
 	err = 0;
 
 	if (!strcmp(argv[0], "-")) {
-		char token[BUFSIZ];
-		while (fgets(token, sizeof(token), stdin) != NULL) {
+		char *token = NULL;
+		size_t token_size = 0;
+
+		/* Tokens can be longer than any fixed size buffer */
+		while (getline(&token, &token_size, stdin) != -1) {
 			token[strcspn(token, "\n")] = '\0';
 
 			err += process_one(checker, alg, token, quiet);
 		}
+
+		free(token);
 	} else {
 		for (oc = 0; oc < argc; oc++) {
 			const char *token = argv[oc];
